@@ -45,8 +45,29 @@
 (*     reload as well: the reload replaces certificate and key, not the    *)
 (*     client CA -> ConfigKept, Authenticated (negative control "dropca":  *)
 (*     a reload that forgets the client CA).                               *)
+(*     WHICH client CA a reload puts in force is part of "replacing the    *)
+(*     server identity at run time changes what later handshakes see":     *)
+(*     the operator may replace the CA bundle IN PLACE (same path, a new   *)
+(*     generation of the CA: Rotate) and reload.  The configured CA is the *)
+(*     pair (wantCA, wantGen); the CA in force (liveCA, liveGen) follows   *)
+(*     at the next reload and not before -> CAFollows, JudgedAsConfigured, *)
+(*     Authenticated (negative controls "staleca": the reload keeps the CA *)
+(*     it read first; "eagerca": the rotation is in force before any       *)
+(*     reload).                                                            *)
+(*     A reload may also FAIL (the operator signals while the files cannot *)
+(*     be loaded: BotchedReload): nothing was replaced, so nothing changes *)
+(*     - and the next replacement still "changes what later handshakes     *)
+(*     see" (negative control "deaf": after a failed reload the server     *)
+(*     does not react to reload requests any more).                        *)
+(*                                                                         *)
+(* (c) Roots of the client replaced in place.  "validates against the      *)
+(*     roots the client was given": the roots are a FILE the client was    *)
+(*     pointed at; every connection is validated against what that file    *)
+(*     holds when the connection is made -> the machine CConnect /         *)
+(*     CRotate with the invariant ClientFollowsRoots (negative control     *)
+(*     "staleroots": the client keeps the roots it read first).            *)
 (***************************************************************************)
-EXTENDS Naturals, Sequences, FiniteSets
+EXTENDS Naturals, Sequences, FiniteSets, TLC
 
 (* ------------------------------ (a) decision table ------------------------------ *)
 ServerCerts == {"trustedCA", "otherCA", "selfSigned"}
@@ -99,61 +120,124 @@ ASSUME Counts ==
   /\ Cardinality({k \in Cases : Expected(k) = {"clientRejects", "serverRejects"}}) = 10
 
 (* ------------------------------ (b) identity reload ------------------------------ *)
-(* The reload replaces the server's certificate and key ONLY.  Whether the server demands client          *)
-(* certificates (its client CA, --tls-ca) is part of its configuration and a reload keeps it: "peers are   *)
-(* authenticated exactly as configured", before and after a reload.  The machine therefore carries         *)
-(*   wantCA   the client CA the operator configured (never changes)                                        *)
-(*   liveCA   the client CA of the identity a handshake that starts now is served with                     *)
-(* and a handshake of the machine is a cell of the matrix above: the identities are issued by the trusted  *)
-(* CA for the requested name, the client verifies, presents `cc` and the server's client CA is liveCA.     *)
-CONSTANT Mode       \* "swap" (the property) | "stale" | "inplace" | "disconnect" | "dropca" (negative controls)
-ASSUME Mode \in {"swap", "stale", "inplace", "disconnect", "dropca"}
+(* The reload replaces the server's certificate and key and RE-READS the client CA bundle at the configured *)
+(* path.  Whether the server demands client certificates (--tls-ca given or not) is part of its              *)
+(* configuration and a reload keeps it: "peers are authenticated exactly as configured", before and after a   *)
+(* reload.  The content of the bundle may be replaced in place by the operator (Rotate: generation g+1 of the *)
+(* client CA at the same path); it takes effect at the next reload.  The machine therefore carries            *)
+(*   wantCA   whether the operator configured a client CA (never changes)                                     *)
+(*   wantGen  the generation of the CA bundle at the configured path (number of rotations so far)             *)
+(*   liveCA / liveGen   the client CA of the identity a handshake that starts now is served with              *)
+(*   dueGen   (ghost) the generation that was at the path when the identity was (re)loaded last: the one the   *)
+(*            property demands to be in force                                                                 *)
+(* and a handshake of the machine is a cell of the matrix above: the identities are issued by the trusted CA  *)
+(* for the requested name, the client verifies, presents `cc`, and the server's client CA is liveCA in        *)
+(* generation liveGen.  A client certificate is "none", "otherCA" (a CA that never was configured) or one of   *)
+(* the generations of the configured CA: GenName(0) = "trustedCA", GenName(g) = "gen<g>".  Relative to a CA    *)
+(* generation g in force, a certificate of generation g is the cell's "trustedCA", one of any other            *)
+(* generation (retired, or not loaded yet) the cell's "otherCA".                                              *)
+CONSTANT Mode       \* "swap" (the property) | negative controls: "stale" | "inplace" | "disconnect" | "dropca" |
+                    \* "staleca" | "eagerca" | "deaf" | "staleroots"
+ASSUME Mode \in {"swap", "stale", "inplace", "disconnect", "dropca", "staleca", "eagerca", "deaf", "staleroots"}
 
 VARIABLES
   identityVersion,  \* the identity the operator installed last (number of reloads so far)
   live,             \* the identity a handshake that starts now is served with
   conns,            \* established connections: born = identityVersion when it handshook, ver = the identity it
                     \* handshook with, cfg = the identity its session refers to now, alive, cc = the client
-                    \* certificate it presented (would present if asked)
+                    \* certificate it presented (would present if asked), gen = dueGen when it handshook
   wantCA,           \* "configured" | "none": the server's client CA as configured by the operator
-  liveCA            \* the client CA in force for a handshake that starts now
+  liveCA,           \* the client CA in force for a handshake that starts now
+  wantGen,          \* generation of the client CA bundle at the configured path
+  liveGen,          \* generation of the client CA in force for a handshake that starts now
+  dueGen,           \* generation at the path at the last (re)load
+  botched,          \* number of reload requests so far that failed (the files could not be loaded)
+  \* (c) the client side
+  rootsGen,         \* generation of the roots file the client is pointed at
+  rootsRead,        \* {} or {g}: the generation the client process read first (only "staleroots" looks at it)
+  cseen             \* the client's connections so far: srv = who issued the server's certificate, roots = rootsGen
+                    \* when it was made, ok = the client was satisfied
 
-mvars == <<identityVersion, live, conns, wantCA, liveCA>>
+svars == <<identityVersion, live, conns, wantCA, liveCA, wantGen, liveGen, dueGen, botched>>
+cvars == <<rootsGen, rootsRead, cseen>>
+mvars == <<identityVersion, live, conns, wantCA, liveCA, wantGen, liveGen, dueGen, botched, rootsGen, rootsRead, cseen>>
 
 CAOf(mtls) == IF mtls = TRUE THEN "configured" ELSE "none"
 
-MInitWith(ca) == identityVersion = 0 /\ live = 0 /\ conns = <<>> /\ wantCA = ca /\ liveCA = ca
+\* ---- generations of a CA ----
+GenName(g) == IF g = 0 THEN "trustedCA" ELSE "gen" \o ToString(g)
+GenNames(n) == {GenName(g) : g \in 0 .. n}
+IsGen(x, n) == \E g \in 0 .. n : GenName(g) = x
+GenOf(x, n) == CHOOSE g \in 0 .. n : GenName(g) = x
+\* what a client may present to the server now: nothing, a certificate of a CA that was never configured, or one of
+\* the generations that exist
+Presentable == {"none", "otherCA"} \cup GenNames(wantGen)
+\* the certificate `cc` as the decision table sees it when generation `gen` of the client CA is in force
+CellCert(cc, gen) == IF cc \in {"none", "otherCA"} THEN cc
+                     ELSE IF IsGen(cc, wantGen) /\ GenOf(cc, wantGen) = gen THEN "trustedCA" ELSE "otherCA"
+
+CInit == rootsGen = 0 /\ rootsRead = {} /\ cseen = <<>>
+MInitWith(ca) == /\ identityVersion = 0 /\ live = 0 /\ conns = <<>> /\ wantCA = ca /\ liveCA = ca
+                 /\ wantGen = 0 /\ liveGen = 0 /\ dueGen = 0 /\ botched = 0
+                 /\ CInit
 MInit == MInitWith("none")
 
 \* a handshake of the reload machine as a cell of the matrix
 HandshakeCell(cc, ca) == [serverCert |-> "trustedCA", nameMatches |-> TRUE, skipVerify |-> FALSE,
                           clientCert |-> cc, serverClientCA |-> ca]
+\* ... of a client presenting cc to a server whose client CA is `ca` in generation `gen`
+HandshakeCellG(cc, ca, gen) == HandshakeCell(CellCert(cc, gen), ca)
 \* the certificate a client that was set up for this server presents
-RightCert == IF wantCA = "configured" THEN "trustedCA" ELSE "none"
+RightCert == IF wantCA = "configured" THEN GenName(dueGen) ELSE "none"
 \* what a handshake presenting cc that starts now must end in (a set, as in the table), and whether it is established
-HandshakeOutcome(cc) == Expected(HandshakeCell(cc, liveCA))
+HandshakeOutcome(cc) == Expected(HandshakeCellG(cc, liveCA, liveGen))
 Admitted(cc) == HandshakeOutcome(cc) = {"ok"}
+\* what the CONFIGURATION (as of the last reload) demands of that handshake
+DueOutcome(cc) == Expected(HandshakeCellG(cc, wantCA, dueGen))
 
 \* a client presenting cc connects: established iff the table says "ok"; a refused handshake leaves no trace
 ConnectAs(cc) ==
-  /\ cc \in ClientCerts
+  /\ cc \in Presentable
   /\ conns' = IF Admitted(cc)
-              THEN Append(conns, [born |-> identityVersion, ver |-> live, cfg |-> live, alive |-> TRUE, cc |-> cc])
+              THEN Append(conns, [born |-> identityVersion, ver |-> live, cfg |-> live, alive |-> TRUE, cc |-> cc,
+                                  gen |-> dueGen])
               ELSE conns
-  /\ UNCHANGED <<identityVersion, live, wantCA, liveCA>>
+  /\ UNCHANGED <<identityVersion, live, wantCA, liveCA, wantGen, liveGen, dueGen, botched>>
+  /\ UNCHANGED cvars
 
 \* the client that was set up for this server connects (always admitted when the configuration is kept)
 Connect == ConnectAs(RightCert)
 
+\* the operator overwrites the client CA bundle in place with the next generation of the CA; nothing is reloaded
+Rotate ==
+  /\ wantCA = "configured"
+  /\ wantGen' = wantGen + 1
+  /\ liveGen' = IF Mode = "eagerca" THEN wantGen + 1 ELSE liveGen
+  /\ UNCHANGED <<identityVersion, live, conns, wantCA, liveCA, dueGen, botched>>
+  /\ UNCHANGED cvars
+
+\* a reload is requested while the files at the configured paths cannot be loaded (an incomplete renewal): nothing is
+\* replaced, the identity installed last keeps serving, established connections are not touched
+BotchedReload ==
+  /\ botched' = botched + 1
+  /\ UNCHANGED <<identityVersion, live, conns, wantCA, liveCA, wantGen, liveGen, dueGen>>
+  /\ UNCHANGED cvars
+
+\* (negative control "deaf": the first failed reload was the last one the server reacted to)
+Deaf == Mode = "deaf" /\ botched > 0
+
 Reload ==
   /\ identityVersion' = identityVersion + 1
-  /\ live' = IF Mode = "stale" THEN live ELSE identityVersion + 1
+  /\ live' = IF Mode = "stale" \/ Deaf THEN live ELSE identityVersion + 1
   /\ conns' = CASE Mode = "inplace"    -> [c \in DOMAIN conns |-> [conns[c] EXCEPT !.cfg = identityVersion + 1]]
                 [] Mode = "disconnect" -> [c \in DOMAIN conns |-> [conns[c] EXCEPT !.alive = FALSE]]
                 [] OTHER               -> conns
-  \* certificate and key are replaced, the rest of the configuration is kept
+  \* certificate and key are replaced, the client CA bundle is read again, the rest of the configuration is kept
   /\ liveCA' = IF Mode = "dropca" THEN "none" ELSE liveCA
-  /\ UNCHANGED wantCA
+  /\ liveGen' = IF Mode = "staleca" \/ Deaf THEN liveGen ELSE wantGen
+  /\ dueGen' = wantGen
+  /\ UNCHANGED <<wantCA, wantGen, botched>>
+  /\ UNCHANGED cvars
 
 \* using an established connection changes nothing; what is observed: Works(c), Sees(c)
 Use(c) == c \in DOMAIN conns /\ UNCHANGED mvars
@@ -166,12 +250,52 @@ Undisturbed == \A c \in DOMAIN conns : Works(c) /\ Sees(c) = conns[c].ver
 Fresh == \A c \in DOMAIN conns : conns[c].ver = conns[c].born
 \* new handshakes are authenticated as configured, whatever number of reloads happened
 ConfigKept == liveCA = wantCA
-\* every established connection is one the CONFIGURATION admits (observable form of ConfigKept)
-Authenticated == \A c \in DOMAIN conns : ServerAccepts(HandshakeCell(conns[c].cc, wantCA))
+\* ... against the CA bundle that was at the configured path at the last reload: a rotation takes effect at the next
+\* reload (not later: "staleca") and not before ("eagerca")
+CAFollows == liveGen = dueGen
+\* observable form of ConfigKept /\ CAFollows: whoever connects now is judged as the configuration read at the last
+\* reload demands (a client of a retired generation is refused, one of the generation configured then is admitted)
+JudgedAsConfigured == \A cc \in Presentable : HandshakeOutcome(cc) = DueOutcome(cc)
+\* every established connection is one the CONFIGURATION in force when it handshook admits
+Authenticated == \A c \in DOMAIN conns : ServerAccepts(HandshakeCellG(conns[c].cc, wantCA, conns[c].gen))
+
+(* ------------------------------ (c) the client's roots replaced in place ------------------------------ *)
+(* The client is pointed at a roots FILE.  Its content may be replaced in place (CRotate: generation g+1 of the  *)
+(* CA); every connection made afterwards by the same client process is validated against the new content.       *)
+(* A connection of this machine is a cell of the matrix: the server presents a certificate for the requested    *)
+(* name issued by `srv` (a generation of the CA, or "otherCA"), the client verifies against the roots, the        *)
+(* server has no client CA.                                                                                      *)
+CPresentable == {"otherCA"} \cup GenNames(rootsGen)
+ClientCell(srv, roots) ==
+  [serverCert |-> IF IsGen(srv, rootsGen) /\ GenOf(srv, rootsGen) = roots THEN "trustedCA" ELSE "otherCA",
+   nameMatches |-> TRUE, skipVerify |-> FALSE, clientCert |-> "none", serverClientCA |-> "none"]
+\* the roots a connection that starts now is validated against
+RootsUsed == IF Mode = "staleroots" /\ rootsRead # {} THEN CHOOSE g \in rootsRead : TRUE ELSE rootsGen
+CConnectOutcome(srv) == Expected(ClientCell(srv, RootsUsed))
+
+CConnect(srv) ==
+  /\ srv \in CPresentable
+  /\ cseen' = Append(cseen, [srv |-> srv, roots |-> rootsGen, ok |-> CConnectOutcome(srv) = {"ok"}])
+  /\ rootsRead' = IF rootsRead = {} THEN {rootsGen} ELSE rootsRead
+  /\ UNCHANGED rootsGen
+  /\ UNCHANGED svars
+
+CRotate ==
+  /\ rootsGen' = rootsGen + 1
+  /\ UNCHANGED <<rootsRead, cseen>>
+  /\ UNCHANGED svars
+
+\* every connection was validated against the roots the file held when it was made
+ClientFollowsRoots ==
+  \A i \in DOMAIN cseen : cseen[i].ok = ClientAccepts(ClientCell(cseen[i].srv, cseen[i].roots))
 
 MTypeOK ==
   /\ identityVersion \in Nat /\ live \in 0 .. identityVersion
   /\ wantCA \in ClientCAs /\ liveCA \in ClientCAs
+  /\ wantGen \in Nat /\ liveGen \in 0 .. wantGen /\ dueGen \in 0 .. wantGen /\ botched \in Nat
+  /\ wantCA = "none" => wantGen = 0
   /\ \A c \in DOMAIN conns : /\ conns[c].ver \in 0 .. identityVersion /\ conns[c].born \in 0 .. identityVersion
-                             /\ conns[c].cc \in ClientCerts
+                             /\ conns[c].cc \in Presentable /\ conns[c].gen \in 0 .. dueGen
+  /\ rootsGen \in Nat /\ rootsRead \subseteq 0 .. rootsGen
+  /\ \A i \in DOMAIN cseen : cseen[i].srv \in CPresentable /\ cseen[i].roots \in 0 .. rootsGen /\ cseen[i].ok \in BOOLEAN
 =============================================================================
